@@ -1,6 +1,9 @@
 #include "recbackend.h"
 #include "recjson.h"
 #include "mp/flat/model_api_base.h"
+#include "mp/nl-reader.h"
+#include <cstring>
+#include <cerrno>
 
 std::unique_ptr<mp::BasicBackend> CreateRecBackend() {
   return std::unique_ptr<mp::BasicBackend>{new mp::RecBackend()};
@@ -8,10 +11,34 @@ std::unique_ptr<mp::BasicBackend> CreateRecBackend() {
 
 namespace mp {
 
+void rec_fault(const char *site) {
+  const char *f = std::getenv("RECSOLVER_FAULT");
+  if (!f) return;
+  size_t n = std::strlen(site);
+  if (std::strncmp(f, site, n) != 0 || f[n] != ':') return;
+  std::string kind = f + n + 1;
+  int code = 0;
+  auto p = kind.find(':');
+  if (p != std::string::npos) { code = std::atoi(kind.c_str() + p + 1); kind.erase(p); }
+  std::string msg = std::string("injected ") + kind + " at " + site;
+  if (kind == "plain") MP_RAISE(msg);
+  if (kind == "withCode") MP_RAISE_WITH_CODE(code, msg);
+  if (kind == "infeas") MP_INFEAS(msg);
+  if (kind == "solCheck") MP_RAISE_WITH_CODE(int(sol::MP_SOLUTION_CHECK), msg);
+  if (kind == "unsupported") MP_UNSUPPORTED(msg);
+  if (kind == "optionError") throw OptionError(msg);
+  if (kind == "readError") throw ReadError("injected.nl", 1, 1, "{}", msg);
+  if (kind == "fmtError") throw Error("{}", msg);
+  if (kind == "systemError") throw fmt::SystemError(ENOENT, "{}", msg);
+  if (kind == "stdExn") throw std::runtime_error(msg);
+  if (kind == "foreign") throw 42;
+}
+
 std::unique_ptr<BasicModelManager>
 CreateRecModelMgr(RecCommon &, Env &, pre::BasicValuePresolver *&);
 
 RecBackend::RecBackend() {
+  rec_fault("ctor");
   set_st(&st_);
   pre::BasicValuePresolver *pPre;
   auto data = CreateRecModelMgr(*this, *this, pPre);
@@ -22,6 +49,7 @@ RecBackend::RecBackend() {
 RecBackend::~RecBackend() {}
 
 void RecBackend::InitCustomOptions() {
+  rec_fault("init");
   set_option_header("recsolver: recording driver for verification.\n");
 }
 
@@ -50,12 +78,14 @@ ArrayRef<double> RecBackend::GetObjectiveValues() {
 
 void RecBackend::Solve() {
   st_.Log("{\"ev\":\"solve\"}");
+  rec_fault("solve");
   if (st_.throw_in_solve == 1) throw std::runtime_error("scripted runtime_error in Solve");
   if (st_.throw_in_solve == 2) throw mp::Error("scripted mp::Error in Solve", st_.code);
   if (st_.throw_in_solve == 3) throw mp::UnsupportedError("scripted UnsupportedError in Solve");
 }
 
 void RecBackend::ReportResults() {
+  rec_fault("report");
   SetStatus({st_.scripted ? st_.code : 0, st_.scripted ? st_.msg : std::string("recorded")});
   BaseBackend::ReportResults();
 }
